@@ -73,7 +73,7 @@ THEOREMS = {
 # violation tags raised by the harness monitors that count for a property
 TAGS = {
     "C01": ["C01"], "C02": ["C02", "mem"], "C03": ["C03"], "C04": ["C04"], "C05": ["C05"], "C06": ["life"],
-    "C07": ["ledger", "C07"], "C08": ["C08"], "C09": ["C09", "C01", "life"], "C10": ["C10", "C01", "C02"], "C11": ["C11", "life", "C01"], "C12": ["C12", "life", "C01", "C08", "ledger"],
+    "C07": ["ledger", "C07"], "C08": ["C08"], "C09": ["C09", "C01", "life", "C08"], "C10": ["C10", "C01", "C02"], "C11": ["C11", "life", "C01"], "C12": ["C12", "life", "C01", "C08", "ledger"],
     "C13": ["C13"], "C14": ["C14"], "C15": ["C15"], "C16": ["C16"], "C17": ["C17", "ledger", "life"], "C18": ["C18", "C01", "C02"],
     "C19": ["C19"], "C20": ["C20"],
 }
